@@ -22,7 +22,7 @@ theorem fingerprints_expected : fingerprints = [
   ("Data.DropRetentionPolicy", "cbe7955e9fb41838"),
   ("Data.MarkRetentionPolicyDelete", "1bebcce36629706d"),
   ("Data.SetDefaultRetentionPolicy", "8092578aee4aa8a3"),
-  ("Data.UpdateRetentionPolicy", "a5bf51e5d13dc8d7"),
+  ("Data.UpdateRetentionPolicy", "6e60da56b637d1ca"),
   ("RetentionPolicyInfo.updateWithOtherRetentionPolicy", "47fd24dd41a07c33"),
   ("RetentionPolicyInfo.CheckSpecValid", "bb8090d32defb627"),
   ("RetentionPolicyInfo.checkGeqThanMinDuration", "38ea3eb80be5bccf"),
